@@ -96,7 +96,25 @@ func (x *Exec) callIface(iv *IfaceV, call *ssa.CallCommon, args []Val) Val {
 }
 
 func (x *Exec) undeclared(name string) {
-	x.oblige("undeclared-external", name, []string{"C01", "C06", "C14"}, tFalse, "call to "+name+" which has no extern contract")
+	// an unknown callee invalidates every property the unit serves (everything after it would be vacuous)
+	props := []string{"C01", "C06", "C14"}
+	seen := map[string]bool{"C01": true, "C06": true, "C14": true}
+	for _, c := range []*Contract{x.eng.contractOf[x.unit], x.unitFType} {
+		if c == nil {
+			continue
+		}
+		ps := append([]string{}, c.Props...)
+		for _, cl := range c.Clauses {
+			ps = append(ps, cl.Props...)
+		}
+		for _, p := range ps {
+			if !seen[p] {
+				seen[p] = true
+				props = append(props, p)
+			}
+		}
+	}
+	x.oblige("undeclared-external", name, props, tFalse, "call to "+name+" which has no extern contract")
 }
 
 func (x *Exec) freshResult(sig *types.Signature) Val {
@@ -115,6 +133,28 @@ func (x *Exec) freshResult(sig *types.Signature) Val {
 }
 
 func (x *Exec) callStatic(fn *ssa.Function, args []Val, bindings []Val) Val {
+	if fn.String() == "errors.As" && len(args) == 2 {
+		// errors.As(err, &target): built-in model: target is overwritten; on success it is non-nil
+		x.externSites++
+		x.assumed["errors.As"] = true
+		res := x.sc.fresh(SBool, "as_ok")
+		if iv, ok := args[1].(*IfaceV); ok {
+			if p, ok := iv.Known.(*PtrV); ok {
+				nv := x.freshVal(pointeeType(p), "as_target")
+				x.storeTo(p, nv)
+				switch t := nv.(type) {
+				case *IfaceV:
+					x.assumeHere(implies(res, not(eq(t.Tag, tZero))))
+				case *PtrV:
+					if t.Kind == PObj && len(t.Path) == 0 {
+						x.assumeHere(implies(res, not(eq(t.Base, tZero))))
+					}
+				}
+				return &Scalar{types.Typ[types.Bool], res}
+			}
+		}
+		unsupported("errors.As with a target that is not the address of a local variable")
+	}
 	full := fn.String()
 	if fn.Origin() != nil {
 		full = fn.Origin().String()
@@ -122,7 +162,11 @@ func (x *Exec) callStatic(fn *ssa.Function, args []Val, bindings []Val) Val {
 	if c := x.eng.specs.Externs[full]; c != nil {
 		return x.applyContract(c, fn, fn.Signature, args, nil, "extern-pre", shortFn(fn))
 	}
-	if c := x.eng.contractOf[fn]; c != nil && !c.Attrs["inline"] {
+	c := x.eng.contractOf[fn]
+	if c == nil && fn.Origin() != nil {
+		c = x.eng.contractOf[fn.Origin()] // instantiation of a generic function under contract
+	}
+	if c != nil && !c.Attrs["inline"] {
 		return x.applyContract(c, fn, fn.Signature, args, nil, "call-pre", fn.Name())
 	}
 	if x.eng.inlinable(fn) {
